@@ -2,7 +2,7 @@
 and the cpu list are read off the event trace and compared with a checker-side statement of the RAMSES traversal."""
 from __future__ import annotations
 
-from ..models import ModelEval, PyObj, Marker, Raised, fold
+from ..models import ModelEval, PyObj, Marker, Raised
 from ..peval import Model, Unsupported, ProgramRaised
 from ..source import AnalysisError
 from .core_models import RawTok, ArrTok, core_hooks, tok_origin
@@ -244,8 +244,6 @@ def first_diff(got, want):
     return None
 
 
-def norm_select(sel):
-    return dict(sel) if isinstance(sel, dict) else sel
 
 
 SCENARIOS = [
